@@ -91,6 +91,7 @@ type Term struct {
 	ULo, UHi uint64
 	vars     []int // sorted ids of free variables (lazily computed)
 	varsDone bool
+	NMul     int // number of multiplication / division nodes below (tree count, saturating)
 }
 
 // Ctx owns a hash-cons table. Not safe for concurrent use.
@@ -144,6 +145,16 @@ func (c *Ctx) mk(t *Term) *Term {
 		return o
 	}
 	t.ID = len(c.terms)
+	for _, a := range t.Args {
+		t.NMul += a.NMul
+	}
+	switch t.Op {
+	case OMul, OUDiv, OURem, OSDiv, OSRem:
+		t.NMul++
+	}
+	if t.NMul > 1000 {
+		t.NMul = 1000
+	}
 	c.terms = append(c.terms, t)
 	c.tab[k] = t
 	if t.Sort == SBV {
